@@ -24,6 +24,13 @@ def check(case):
     if abs(ch(t0, t1) + ch(t1, t2) - ch(t0, t2)) > 1e-9 * sc: fails.append("cooling heat not additive")
     if abs(ch(t0, t1) + ch(t1, t0)) > 1e-9 * sc: fails.append("cooling heat not antisymmetric")
     if ch(t0, t0) != 0: fails.append("cooling heat of an empty interval is %r" % ch(t0, t0))
+    # additivity with one very short sub-interval and the derivative right at the start of the interval (t1 -> t0): a shortcut for
+    # "almost equal" temperatures shows here
+    for eps in (1e-3, 1e-5):
+        whole = ch(t0, t1); parts = ch(t0, t1 + eps) + ch(t1 + eps, t1)
+        if abs(whole - parts) > 1e-9 * sc: fails.append("cooling heat not additive over a split %g K above the lower limit: %r vs %r" % (eps, whole, parts)); break
+    d0 = (ch(t1 + 1e-3, t1) - ch(t1 - 1e-3, t1)) / 2e-3
+    if abs(d0 - c.get_specific_heat(t1)) > 1e-5 * max(1.0, abs(d0), abs(c.get_specific_heat(t1))): fails.append("d cooling/d upper limit at the start of the interval %r != cp %r" % (d0, c.get_specific_heat(t1)))
     dd = (ch(t0 + h, t1) - ch(t0 - h, t1)) / (2 * h)
     if abs(dd - c.get_specific_heat(t0)) > 1e-5 * max(1.0, abs(dd)): fails.append("d cooling/d upper limit %r != cp %r" % (dd, c.get_specific_heat(t0)))
     return fails
